@@ -1,6 +1,7 @@
 """Property -> machinery map.  `units`: Verus units whose tagged obligations decide the property;
 `kani`: harness groups; `witness`: replay sub-command used to look for a concrete failing input."""
 PROPS = {
+    'C07': {'units': [], 'kani': ['tile_id'], 'witness': 'C07'},
     'C05': {'units': ['directory'], 'kani': ['varint'], 'witness': 'C05'},
     'C19': {'units': ['directory', 'tile_manager'], 'witness': 'C19'},
     'C08': {'units': ['directory', 'tile_manager', 'read_directories'], 'witness': 'C08'},
